@@ -62,6 +62,22 @@ RootBN(a, d) ==
                        <<Zero, hi0>>, steps)
        IN st[1]
 
+\* inverse of a modulo mm (mm >= 2) by the extended Euclidean algorithm with the cofactor kept reduced modulo mm:
+\* invariant t_i * a = r_i (mod mm).  <<>> = no inverse.
+SubModM(x, y, mm) == IF Ge(x, y) THEN Sub(x, y) ELSE Sub(Add(x, mm), y)
+RECURSIVE EgcdT(_, _, _, _, _)
+EgcdT(r0, r1, t0, t1, mm) ==
+  IF IsZero(r1) THEN <<r0, t0>>
+  ELSE LET qr == DivMod(r0, r1) IN EgcdT(r1, qr[2], t1, SubModM(t0, DivMod(Mul(qr[1], t1), mm)[2], mm), mm)
+InvModBN(a, mm) == IF Le(mm, One) THEN <<>>
+                   ELSE LET r == EgcdT(mm, DivMod(a, mm)[2], Zero, One, mm) IN IF r[1] = One THEN <<r[2]>> ELSE <<>>
+\* floor(log_b a) for a >= 1, b >= 2, as a native number
+LogBN(a, b) == LET RECURSIVE F(_, _)
+                   F(p, k) == LET q == Mul(p, b) IN IF Gt(q, a) THEN k ELSE F(q, k + 1)
+               IN F(One, 0)
+NLimbs(n) == (n + 63) \div 64
+Num(x, n) == Mod2(FromNat(x), n)                              \* U::wrapping_from(x as u64)
+
 BinOps == {"wadd", "wsub", "wmul", "sadd", "ssub", "smul", "adiff", "and", "or", "xor", "min", "max", "gcd"}
 FlagOps == {"oadd", "osub", "omul", "cmp", "lcm"}        \* write the value and leave a flag in obs
 DivOps == {"div", "rem", "divceil"}                      \* need a non-zero second operand
@@ -76,6 +92,20 @@ ConvOps == {"wto", "sto", "cto"}
 ConvT == {1, 3, 63, 65, 200}
 MoreFlagOps == {"cnmo"}                                    \* checked_next_multiple_of: None leaves the register alone
 MoreImmOps == {"powmod"}                                   \* a^k mod (old destination)
+\* ---- second family (machine v2) --------------------------------------------------------------------------------------
+\* checked forms (None leaves the register alone), modular inverse, logarithm to a register base, iterator folds over
+\* <<a, b, old destination>>, Montgomery product modulo the old destination (a no-op outside its precondition)
+ChkBinOps == {"cadd", "csub", "cmul", "cdiv", "crem", "invmod", "clog", "sum3", "prod3", "redc"}
+\* bit queries written back as values, checked logarithms / negation, in-place resets (zeroize, num_traits::One::set_one)
+QryOps == {"lo", "to", "cz", "bytelen", "msb", "clog2", "clog10", "cneg", "zeroize", "setone"}
+\* round trips through the text forms not covered above, the Bits wrapper, num-bigint and every wire codec
+CodecOps == {"rt_oct", "rt_bin", "rt_b36", "rt_bits", "rt_big", "rt_ssz", "rt_rlp", "rt_borsh", "rt_der", "rt_scale",
+             "rt_compact", "rt_json", "rt_bincode"}
+ChkShiftOps == {"cshl", "cshr", "sshl", "wshl", "wshr", "cbyte"}    \* immediate = amount / byte index
+PowImmOps == {"cpow", "spow", "wpow"}
+BaseOps == {"rt_base"}                                        \* to_base_le(k) then from_base_le(k, ..)
+SelOps == {"ctsel"}                                           \* subtle::ConditionallySelectable, choice = k
+BaseImm == {2, 3, 10, 16, 36, 255, 256, 65536, 2147483647}
 
 \* <<value written to the destination, observation>>;  a, b operands, m old destination, k immediate, n width
 Apply(op, a, b, m, k, n) ==
@@ -138,10 +168,53 @@ Apply(op, a, b, m, k, n) ==
                            IN IF Lt2(v, n) THEN <<v, TRUE>> ELSE <<m, FALSE>>
     [] op = "powmod" -> <<IF Le(m, One) THEN Zero
                           ELSE FoldL(LAMBDA acc, i : DivMod(Mul(acc, a), m)[2], One, [i \in 1..k |-> i]), FALSE>>
+    \* ---- second family
+    [] op = "cadd" -> IF AddOverflows(a, b, n) THEN <<m, FALSE>> ELSE <<Add(a, b), TRUE>>
+    [] op = "csub" -> IF Lt(a, b) THEN <<m, FALSE>> ELSE <<Sub(a, b), TRUE>>
+    [] op = "cmul" -> IF MulOverflows(a, b, n) THEN <<m, FALSE>> ELSE <<Mul(a, b), TRUE>>
+    [] op = "cdiv" -> IF IsZero(b) THEN <<m, FALSE>> ELSE <<DivMod(a, b)[1], TRUE>>
+    [] op = "crem" -> IF IsZero(b) THEN <<m, FALSE>> ELSE <<DivMod(a, b)[2], TRUE>>
+    [] op = "invmod" -> LET x == InvModBN(a, b) IN IF x = <<>> THEN <<m, FALSE>> ELSE <<x[1], TRUE>>
+    [] op = "clog" -> IF IsZero(a) \/ Le(b, One) THEN <<m, FALSE>> ELSE <<Num(LogBN(a, b), n), TRUE>>
+    [] op = "sum3" -> <<Mod2(Add(Add(a, b), m), n), FALSE>>
+    [] op = "prod3" -> <<WrapMul(WrapMul(a, b, n), m, n), FALSE>>
+    \* mul_redc(a, b, modulus m, inv): a b R^-1 mod m with R = 2^(64 LIMBS); outside the precondition the step is a no-op
+    [] op = "redc" -> IF n > 0 /\ BitAt(m, 0) = 1 /\ Ge(m, <<3>>) /\ Lt(a, m) /\ Lt(b, m)
+                      THEN LET ri == InvModBN(Pow2(64 * NLimbs(n)), m)[1]
+                           IN <<DivMod(Mul(DivMod(Mul(a, b), m)[2], ri), m)[2], TRUE>>
+                      ELSE <<m, FALSE>>
+    [] op = "lo" -> <<Num(LeadingZeros(NotK(a, n), n), n), FALSE>>
+    [] op = "to" -> <<Num(TrailingZerosN(NotK(a, n), n), n), FALSE>>
+    [] op = "cz" -> <<Num(n - PopCount(a), n), FALSE>>
+    [] op = "bytelen" -> <<Num((BitLen(a) + 7) \div 8, n), FALSE>>
+    [] op = "msb" -> LET mv == MsbVal(a) IN <<Mod2(mv[1], n), mv[2] > 0>>
+    [] op = "clog2" -> IF IsZero(a) THEN <<m, FALSE>> ELSE <<Num(BitLen(a) - 1, n), TRUE>>
+    [] op = "clog10" -> IF IsZero(a) THEN <<m, FALSE>> ELSE <<Num(LogBN(a, <<10>>), n), TRUE>>
+    [] op = "cneg" -> IF IsZero(a) THEN <<Zero, TRUE>> ELSE <<m, FALSE>>
+    [] op = "zeroize" -> <<Zero, FALSE>>
+    [] op = "setone" -> <<Mod2(One, n), FALSE>>
+    [] op \in CodecOps \cup BaseOps -> <<a, FALSE>>
+    [] op = "cshl" -> IF ShlLost(a, k, n) THEN <<m, FALSE>> ELSE <<ShlVal(a, k, n), TRUE>>
+    [] op = "cshr" -> IF ShrLost(a, k, n) THEN <<m, FALSE>> ELSE <<IF k >= n THEN Zero ELSE ShrVal(a, k), TRUE>>
+    [] op = "sshl" -> <<IF ShlLost(a, k, n) THEN MaxU(n) ELSE ShlVal(a, k, n), FALSE>>
+    [] op = "wshl" -> <<ShlVal(a, k, n), FALSE>>
+    [] op = "wshr" -> <<IF k >= n THEN Zero ELSE ShrVal(a, k), FALSE>>
+    [] op = "cbyte" -> IF k < NBytes(n) THEN <<Num(At(a, k + 1), n), TRUE>> ELSE <<m, FALSE>>
+    [] op \in PowImmOps -> LET x == Mod2(FromNat(k), n)
+                               v == IF n = 0 THEN Zero ELSE PowWrap(a, x, n)
+                               o == PowOverflows(a, x, n)
+                           IN CASE op = "cpow" -> IF o THEN <<m, FALSE>> ELSE <<v, TRUE>>
+                                [] op = "spow" -> <<IF o THEN MaxU(n) ELSE v, FALSE>>
+                                [] OTHER -> <<v, FALSE>>
+    [] op = "ctsel" -> <<IF k = 0 THEN a ELSE b, FALSE>>
 
-Ops == BinOps \cup FlagOps \cup DivOps \cup UnOps \cup ShiftOps \cup ImmOps \cup ModOps \cup ConvOps \cup MoreFlagOps \cup MoreImmOps
+Ops2 == ChkBinOps \cup QryOps \cup CodecOps \cup ChkShiftOps \cup PowImmOps \cup BaseOps \cup SelOps
+Ops == BinOps \cup FlagOps \cup DivOps \cup UnOps \cup ShiftOps \cup ImmOps \cup ModOps \cup ConvOps \cup MoreFlagOps \cup MoreImmOps \cup Ops2
 
-Imms(op, n) == IF op \in ShiftOps \/ op \in {"setbit1", "setbit0"} THEN ShiftAmts(n)
+Imms(op, n) == IF op \in ShiftOps \/ op \in {"setbit1", "setbit0"} \/ op \in ChkShiftOps THEN ShiftAmts(n)
+               ELSE IF op \in PowImmOps THEN SmallImm
+               ELSE IF op \in BaseOps THEN BaseImm
+               ELSE IF op \in SelOps THEN {0, 1}
                ELSE IF op \in ConvOps THEN ConvT
                ELSE IF op \in {"pow", "powmod"} THEN SmallImm
                ELSE IF op = "root" THEN RootImm
@@ -170,6 +243,10 @@ Next ==
   \/ \E op \in BinOps \cup FlagOps \cup MoreFlagOps \cup DivOps \cup ModOps, d \in Reg, s1 \in Reg, s2 \in Reg : Do(op, d, s1, s2, 0)
   \/ \E op \in UnOps, d \in Reg, s1 \in Reg : Do(op, d, s1, s1, 0)
   \/ \E op \in ShiftOps \cup ImmOps \cup ConvOps \cup MoreImmOps, d \in Reg, s1 \in Reg : \E k \in Imms(op, bits) : Do(op, d, s1, s1, k)
+  \/ \E op \in ChkBinOps, d \in Reg, s1 \in Reg, s2 \in Reg : Do(op, d, s1, s2, 0)
+  \/ \E op \in QryOps \cup CodecOps, d \in Reg, s1 \in Reg : Do(op, d, s1, s1, 0)
+  \/ \E op \in ChkShiftOps \cup PowImmOps \cup BaseOps, d \in Reg, s1 \in Reg : \E k \in Imms(op, bits) : Do(op, d, s1, s1, k)
+  \/ \E op \in SelOps, d \in Reg, s1 \in Reg, s2 \in Reg : \E k \in Imms(op, bits) : Do(op, d, s1, s2, k)
 
 Spec == Init /\ [][Next]_vars
 
@@ -237,6 +314,50 @@ NativeOK ==
          [] op = "cnmo" -> IF b = 0 THEN ~f /\ v = m
                            ELSE LET x == ((a + b - 1) \div b) * b IN f = (x < M) /\ v = (IF x < M THEN x ELSE m)
          [] op = "powmod" -> v = (IF m <= 1 THEN 0 ELSE IF k = 0 THEN 1 ELSE (a ^ k) % m)
+         \* ---- second family
+         [] op = "cadd" -> f = (a + b < M) /\ v = (IF f THEN a + b ELSE m)
+         [] op = "csub" -> f = (a >= b) /\ v = (IF f THEN a - b ELSE m)
+         [] op = "cmul" -> f = (a * b < M) /\ v = (IF f THEN a * b ELSE m)
+         [] op = "cdiv" -> f = (b # 0) /\ v = (IF f THEN a \div b ELSE m)
+         [] op = "crem" -> f = (b # 0) /\ v = (IF f THEN a % b ELSE m)
+         [] op = "invmod" -> LET ok == b >= 2 /\ \E x \in 0..(b - 1) : (a * x) % b = 1
+                             IN f = ok /\ (f => v < b /\ (a * v) % b = 1) /\ (~f => v = m)
+         [] op = "clog" -> IF a = 0 \/ b < 2 THEN ~f /\ v = m
+                           ELSE f /\ \E kk \in 0..n : v = kk % M /\ b ^ kk <= a /\ b ^ (kk + 1) > a
+         [] op = "sum3" -> v = (a + b + m) % M
+         [] op = "prod3" -> v = (a * b * m) % M
+         [] op = "redc" -> IF n > 0 /\ m % 2 = 1 /\ m >= 3 /\ a < m /\ b < m
+                           THEN LET RECURSIVE Dbl(_, _)
+                                    Dbl(r, i) == IF i = 0 THEN r ELSE Dbl((2 * r) % m, i - 1)
+                                    Rm == Dbl(1 % m, 64 * ((n + 63) \div 64))            \* R mod m, R = 2^(64 LIMBS)
+                                IN f /\ v < m /\ (v * Rm) % m = (a * b) % m
+                           ELSE ~f /\ v = m
+         [] op = "lo" -> v = (CHOOSE c \in 0..n : (\A i \in (n - c)..(n - 1) : (a \div 2 ^ i) % 2 = 1)
+                                                  /\ (c = n \/ (a \div 2 ^ (n - c - 1)) % 2 = 0)) % M
+         [] op = "to" -> v = (CHOOSE c \in 0..n : (\A i \in 0..(c - 1) : (a \div 2 ^ i) % 2 = 1)
+                                                  /\ (c = n \/ (a \div 2 ^ c) % 2 = 0)) % M
+         [] op = "cz" -> v = (n - Cardinality({i \in 0..(n - 1) : (a \div 2 ^ i) % 2 = 1})) % M
+         [] op = "bytelen" -> v = (CHOOSE c \in 0..((n + 7) \div 8) : a < 256 ^ c /\ (c = 0 \/ a >= 256 ^ (c - 1))) % M
+         [] op = "msb" -> v = a /\ ~f
+         [] op = "clog2" -> IF a = 0 THEN ~f /\ v = m ELSE f /\ \E kk \in 0..n : v = kk % M /\ 2 ^ kk <= a /\ 2 ^ (kk + 1) > a
+         [] op = "clog10" -> IF a = 0 THEN ~f /\ v = m ELSE f /\ \E kk \in 0..n : v = kk % M /\ 10 ^ kk <= a /\ 10 ^ (kk + 1) > a
+         [] op = "cneg" -> f = (a = 0) /\ v = (IF f THEN 0 ELSE m)
+         [] op = "zeroize" -> v = 0
+         [] op = "setone" -> v = 1 % M
+         [] op \in CodecOps \cup BaseOps -> v = a
+         [] op = "cshl" -> LET lost == IF k >= n THEN a # 0 ELSE a * 2 ^ k >= M IN f = ~lost /\ v = (IF lost THEN m ELSE IF k >= n THEN 0 ELSE a * 2 ^ k)
+         [] op = "cshr" -> LET lost == IF k >= n THEN a # 0 ELSE a % 2 ^ k # 0 IN f = ~lost /\ v = (IF lost THEN m ELSE IF k >= n THEN 0 ELSE a \div 2 ^ k)
+         [] op = "sshl" -> LET lost == IF k >= n THEN a # 0 ELSE a * 2 ^ k >= M IN v = (IF lost THEN M - 1 ELSE IF k >= n THEN 0 ELSE a * 2 ^ k)
+         [] op = "wshl" -> v = (IF k >= n THEN 0 ELSE (a * 2 ^ k) % M)
+         [] op = "wshr" -> v = (IF k >= n THEN 0 ELSE a \div 2 ^ k)
+         [] op = "cbyte" -> f = (k < (n + 7) \div 8) /\ v = (IF f THEN ((a \div 256 ^ k) % 256) % M ELSE m)
+         [] op \in PowImmOps -> LET x == k % M
+                                    ov == a > 0 /\ a ^ x >= M
+                                    pv == IF a = 0 THEN (IF x = 0 THEN 1 % M ELSE 0) ELSE (a ^ x) % M
+                                IN CASE op = "cpow" -> f = ~ov /\ v = (IF ov THEN m ELSE pv)
+                                     [] op = "spow" -> v = (IF ov THEN M - 1 ELSE pv)
+                                     [] OTHER -> v = pv
+         [] op = "ctsel" -> v = (IF k = 0 THEN a ELSE b)
          [] OTHER -> TRUE
 
 TypeOK == bits \in Widths /\ DOMAIN reg = Reg
